@@ -24,6 +24,16 @@ POSITIONS = [
     "has(q1)", "has(q1.q2)", "coalesce(q1, q2)", "q1 in [1]", "1 in q1", "q1 || true", "true || q1", "false && q1",
     "(q1)", "((q1))[q2]", "q1.a.b", "x.q1", "type(q1)", "int(q1)", "[[q1]]", "{'a': {'b': q1}}", "max(q1, q2, 3)",
     "[1].map(v, [2].map(w, v + w + q1))", "f(g(h(q1)))", "q1(1)", "q1()(q2)", "1 < q1 && q2 > 2 || q1 == q2",
+    # names that survive only in the parameter list: inside a sub-expression the compiler folds away (an untaken branch
+    # of a constant condition, a call or macro over constants), below every construct that folds in its turn
+    "{'k': false ? q1 : 1}.k", "{'k': true ? 1 : q1}.k", "{'lo': true ? 1 : q1, 'hi': 10}.lo + q2", "{'a': {'b': false ? q1 : 1}}.a.b",
+    "{'k': false ? q1 : 1}['k']", "[false ? q1 : 1][0]", "[true ? 1 : q1].size()", "size([true ? 1 : q1])", "dyn(false ? q1 : 2)",
+    "(false ? q1 : 1) + 1", "-(true ? 1 : q1)", "!(true ? false : q1)", "(true ? 1 : q1) < 2", "(true ? 1 : q1) in [1]",
+    "false ? q1 : (true ? 2 : q2)", "f'{true ? 1 : q1}'", "{'n': size('ab')}.n", "{'n': [1, 2].map(q1, q1 * 2)}.n",
+    "{'n': [1, 2].map(q1, 3)}.n[0]", "{'k': {'j': true ? 1 : q1}}.k.j + 1", "[{'k': false ? q1 : 1}][0].k", "{'k': [true ? 1 : q1]}.k[0]",
+    "{'a': 1, 'b': false ? q1 : 2}.a", "{'a': true ? 1 : q1}.a == 1 ? 5 : q2", "max({'k': false ? q1 : 1}.k, 0)",
+    "match {'k': true ? 1 : q1}.k { case 1: 2 }", "[1].map(v, {'k': false ? q1 : v}.k)", "coalesce({'k': true ? 1 : q1}.k)",
+    "{'k': true || q1}.k", "{'k': false && q1}.k", "{'k': (true ? 1 : q1) + (false ? q2 : 2)}.k", "string({'k': true ? 1 : q1}.k)",
 ]
 
 
@@ -103,7 +113,7 @@ def run(chk):
             chk.violation("filter_from_bindings does not remove exactly the names bound as variables, functions or macros",
                           dict(case=c, impl=r, expected=w))
     chk.stream("filter_from_bindings against random binding sets", len(fcases), len(set(fcases)))
-    chk.cov["rule"] = ("generated programs with variables in every syntactic position plus 63 hand-written position templates "
+    chk.cov["rule"] = ("generated programs with variables in every syntactic position plus the hand-written position templates (every syntactic position; names that survive only inside folded sub-expressions) "
                        "(call arguments, receivers, macro ranges and bodies, f-strings, index, map keys/values, match scrutinee/"
                        "patterns/arms, untaken branches of constant conditions); the expected set is computed from the generator's "
                        "tree, independently of the compiler")
